@@ -623,3 +623,28 @@ Proof.
   assert (records (fo_m6 fo) n k) as Hr by (apply (frag_exact _ _ _ Ea k g0 Hg0 n); exact Hn).
   split; [exact Hr|exact (records_good _ _ n k I6 Hr)].
 Qed.
+
+(** the exact form: coarse node k's returned graph holds EXACTLY the fine nodes recording k, and every coarse node
+    has a returned graph (frag_exact / frag_keys for the returned graphs) *)
+Theorem step_frag_exact_iff legacy aa fd prev car fo k g : wf_dict fd -> wf_attrs fd ->
+  resolve_step_full legacy aa fd prev car = Ok fo -> In (k, g) (fo_fgs fo) ->
+  exists g0 fgs0, annotate_fragments (fo_meta fo) (fo_m6 fo) = Ok fgs0 /\ In (k, g0) fgs0 /\ node_keys g = node_keys g0 /\
+    forall n, In n (node_keys g0) <-> records (fo_m6 fo) n k.
+Proof.
+  intros Hw Hwa H Hg. destruct (step_tail _ _ _ _ _ _ Hw Hwa H) as [I6 [fgs0 [Ea Ht]]].
+  assert (In (k, node_keys g) (fg_keys fgs0)) as Hk.
+  { assert (fg_keys (fo_fgs fo) = fg_keys fgs0) as <-.
+    { destruct aa; [eapply set_atom_names_keys; exact Ht|destruct Ht as [_ ->]; reflexivity]. }
+    unfold fg_keys. apply in_map_iff. exists (k, g). auto. }
+  unfold fg_keys in Hk. apply in_map_iff in Hk as [[k0 g0] [E Hg0]]. cbn [fst snd] in E. injection E as E1 E2. subst k0.
+  exists g0, fgs0. split; [exact Ea|]. split; [exact Hg0|]. split; [now symmetry|]. intros x. apply (frag_exact _ _ _ Ea k g0 Hg0 x).
+Qed.
+Theorem step_frag_keys legacy aa fd prev car fo : wf_dict fd -> wf_attrs fd ->
+  resolve_step_full legacy aa fd prev car = Ok fo -> map fst (fo_fgs fo) = node_keys (fo_meta fo).
+Proof.
+  intros Hw Hwa H. destruct (step_tail _ _ _ _ _ _ Hw Hwa H) as [_ [fgs0 [Ea Ht]]].
+  rewrite <- (frag_keys _ _ _ Ea).
+  assert (fg_keys (fo_fgs fo) = fg_keys fgs0) as E.
+  { destruct aa; [eapply set_atom_names_keys; exact Ht|destruct Ht as [_ ->]; reflexivity]. }
+  unfold fg_keys in E. apply (f_equal (map fst)) in E. rewrite !map_map in E. exact E.
+Qed.
